@@ -78,6 +78,41 @@ pub proof fn lemma_width_mono<F>(ms: Seq<MatV<F>>, k: int)
     decreases k
 { if k > 0 { lemma_width_mono(ms, k - 1); } }
 
+// ---- the shape / grouping loop of open_input
+pub struct ErrMsg { pub _p: () }
+#[verifier::external_body] pub fn errmsg() -> ErrMsg { unimplemented!() }
+pub enum VerificationError { InvalidProofShape(ErrMsg), Other }
+pub struct Domain { pub log_n: usize }
+impl Domain { pub fn log_size(&self) -> (r: usize) ensures r == self.log_n { self.log_n } }
+pub type MatIn = (Domain, Vec<(Target, Vec<Target>)>);
+/// a matrix reference by its view: (opened row, [(point, values at the point)])
+pub type MatTV = (Seq<Target>, Seq<(Target, Vec<Target>)>);
+pub open spec fn group_get(m: Map<usize, Seq<MatTV>>, h: usize) -> Seq<MatTV> { if m.dom().contains(h) { m[h] } else { Seq::empty() } }
+/// BTreeMap<usize, Vec<MatRef>> by its view
+pub struct HeightGroups<'a> { pub m: Ghost<Map<usize, Seq<MatTV>>>, pub _p: core::marker::PhantomData<&'a ()> }
+impl<'a> HeightGroups<'a> {
+    #[verifier::external_body] pub fn new() -> (r: Self) ensures r.m@ == Map::<usize, Seq<MatTV>>::empty() { unimplemented!() }
+    /// `self.entry(h).or_default().push(item)`
+    #[verifier::external_body] pub fn push_at(&mut self, h: usize, item: MatT<'a>) ensures final(self).m@ == old(self).m@.insert(h, group_get(old(self).m@, h).push((item.0@, item.1@))) { unimplemented!() }
+}
+/// matrices 0..n filed under their log height, in order
+pub open spec fn grouped(mats: Seq<MatIn>, ops: Seq<Vec<Target>>, log_blowup: usize, n: int) -> Map<usize, Seq<MatTV>>
+    decreases n
+{
+    if n <= 0 { Map::empty() } else {
+        let g = grouped(mats, ops, log_blowup, n - 1);
+        let h = (mats[n - 1].0.log_n + log_blowup) as usize;
+        g.insert(h, group_get(g, h).push((ops[n - 1]@, mats[n - 1].1@)))
+    }
+}
+/// C15: every opening point of matrix i lists exactly one value per opened column
+pub open spec fn point_counts_ok(mats: Seq<MatIn>, ops: Seq<Vec<Target>>, n: int) -> bool {
+    forall|i: int, p: int| 0 <= i < n && 0 <= p < mats[i].1@.len() ==> (#[trigger] mats[i].1@[p]).1@.len() == ops[i]@.len()
+}
+pub open spec fn groups_from(g: Map<usize, Seq<MatTV>>, mats: Seq<MatIn>, ops: Seq<Vec<Target>>, n: int) -> bool {
+    forall|h: usize, j: int| g.dom().contains(h) && 0 <= j < g[h].len() ==> exists|i: int| 0 <= i < n && (#[trigger] g[h][j]) == (ops[i]@, mats[i].1@)
+}
+
 // ---- ordered / tuple-keyed maps of open_input, by their views (BTreeMap<usize, Target>, HashMap<(usize, Target), Target>, BTreeMap<usize, (Target, Target)>)
 pub struct EvalPoints { pub m: Ghost<Map<usize, Target>> }
 impl EvalPoints {
@@ -158,6 +193,48 @@ def build():
     u.text('verus! {')
     u.emit(c, vis='')
     u.text('}')
+
+    # ------------------------------------------------------------------ open_input[per_matrix_shape_and_grouping]
+    sh = u.extract(V, '', 'open_input', 'open_input[per_matrix_shape_and_grouping]')
+    slice_from_through_loop(sh, 'let mut height_groups:', r'for \(mat_idx, \(\(mat_domain, mat_points_and_values\), mat_opening\)\) in zip_eq\(.*?\.enumerate\(\)\s*\{', 'Ok(height_groups)',
+                            'prefix: index-bit checks, evaluation points, MMCS batch verification; suffix: the loop over height groups (slice height_group), height-1 check, descending list')
+    sh.set_sig('R11', "fn open_input<'a>(mats: &'a Vec<MatIn>, batch_openings: &'a Vec<Vec<Target>>, log_blowup: usize, batch_idx: usize) -> Result<HeightGroups<'a>, VerificationError>", sliced=True)
+    sh.rewrite_re('R11', r"let mut height_groups: BTreeMap<usize, Vec<MatRef<'_>>> = BTreeMap::new\(\);", "let mut height_groups: HeightGroups<'a> = HeightGroups::new();", min_count=1)
+    sh.erase_error_messages('VerificationError::InvalidProofShape')
+    unzip_eq_enumerate(sh)
+    from vf.unit import normalize_let_chains
+    normalize_let_chains(sh)
+    unfor_pairs(sh)
+    sh.rewrite_re('R6', r'height_groups\s*\.entry\(log_height\)\s*\.or_default\(\)\s*\.push\(', 'height_groups.push_at(log_height, ', min_count=1)
+    sh.requires('heights_fit', 'forall|i: int| 0 <= i < mats@.len() ==> (#[trigger] mats@[i]).0.log_n + log_blowup < 0x1_0000_0000')
+    sh.ensures('ok_iff_one_opened_row_per_matrix_and_one_value_per_column_at_EVERY_opening_point',
+               'ret is Ok <==> (mats@.len() == batch_openings@.len() && point_counts_ok(mats@, batch_openings@, mats@.len() as int))')
+    sh.ensures('matrices_filed_under_their_height_in_order', "ret matches Ok(g) ==> g.m@ == grouped(mats@, batch_openings@, log_blowup, mats@.len() as int) && groups_from(g.m@, mats@, batch_openings@, mats@.len() as int)")
+    LOOP = 'for mat_idx in 0..mats.len()'
+    sh.at_loop_end(LOOP, '''proof {
+                let i = mat_idx as int; let g0 = g_b; let hh = log_height;
+                assert(height_groups.m@ == grouped(mats@, batch_openings@, log_blowup, i + 1)); // @@A:matrix_filed_under_its_own_height_with_its_own_rows_and_points
+                assert forall|h: usize, j: int| height_groups.m@.dom().contains(h) && 0 <= j < height_groups.m@[h].len() implies
+                    exists|k: int| 0 <= k < i + 1 && (#[trigger] height_groups.m@[h][j]) == (batch_openings@[k]@, mats@[k].1@) by {
+                    if h == hh && j == group_get(g0, hh).len() { assert(height_groups.m@[h][j] == (batch_openings@[i]@, mats@[i].1@)); }
+                    else { assert(g0.dom().contains(h) && height_groups.m@[h][j] == g0[h][j]); let k = choose|k: int| 0 <= k < i && g0[h][j] == (batch_openings@[k]@, mats@[k].1@); assert(0 <= k < i + 1); }
+                }
+            }''')
+    after_loop_binding(sh, LOOP, ' let ghost g_b = height_groups.m@;')
+    INNER = 'for p0_ in 0..mat_points_and_values.len()'
+    if _find_all(INNER, sh.body):
+        sh.loop(INNER, invariants=[
+            ('ctx', '0 <= mat_idx < mats@.len() && mats@.len() == batch_openings@.len() && *mat_points_and_values == mats@[mat_idx as int].1 && *mat_opening == batch_openings@[mat_idx as int]'),
+            ('points_checked_so_far', 'forall|p: int| 0 <= p < p0_ ==> (#[trigger] mats@[mat_idx as int].1@[p]).1@.len() == batch_openings@[mat_idx as int]@.len()'),
+        ])
+    sh.loop(LOOP, invariants=[
+        ('ctx', 'mats@.len() == batch_openings@.len() && forall|i: int| 0 <= i < mats@.len() ==> (#[trigger] mats@[i]).0.log_n + log_blowup < 0x1_0000_0000'),
+        ('checked_prefix', 'point_counts_ok(mats@, batch_openings@, mat_idx as int)'),
+        ('grouped_prefix', "height_groups.m@ == grouped(mats@, batch_openings@, log_blowup, mat_idx as int) && groups_from(height_groups.m@, mats@, batch_openings@, mat_idx as int)"),
+    ])
+    u.text('verus! { mod shape_slice { use super::*;')
+    u.emit(sh, vis='')
+    u.text('} }')
 
     # ------------------------------------------------------------------ open_input[height_group]
     g = u.extract(V, '', 'open_input', 'open_input[height_group]')
@@ -322,6 +399,38 @@ def after_loop_binding(f, loop_head, text):
 def loop_if_present(f, head, **kw):
     if _find_all(head, f.body):
         f.loop(head, **kw)
+    return f
+
+
+def slice_from_through_loop(f, start_anchor, loop_head_re, tail, why):
+    """R13: the function body becomes the statements from `start_anchor` through the end of the loop whose head matches `loop_head_re`, then `tail`"""
+    ms = _find_all(start_anchor, f.body)
+    ls = list(re.finditer(loop_head_re, f.body, flags=re.S))
+    if len(ms) != 1 or len(ls) != 1:
+        raise ExtractError(f"lost anchor in {f.qual}: slice start matched {len(ms)}x, loop head matched {len(ls)}x")
+    open_ = f.body.index('{', ls[0].end() - 1)
+    close = match_brace(f.body, open_)
+    dropped = len(f.body) - (close + 1 - ms[0].start())
+    f.body = '{\n' + f.body[ms[0].start():close + 1] + '\n' + tail + '\n}'
+    f.rewrites.append(('R13', f'function body := from `{" ".join(start_anchor.split())}` through the loop `{" ".join(ls[0].group(0).split())[:80]}` ({dropped} chars around dropped)', why))
+    return f
+
+
+def unzip_eq_enumerate(f):
+    """R5: `for (I, ((P, Q), R)) in zip_eq(A.iter(), B.iter(), ERR)?.enumerate() {` -> `if A.len() != B.len() { return Err(ERR); } for I in 0..A.len() { let (P, Q) = &A[I]; let R = &B[I];`"""
+    m = re.search(r'for \((\w+), \(\((\w+), (\w+)\), (\w+)\)\) in zip_eq\(\s*(\w+)\.iter\(\),\s*(\w+)\.iter\(\),\s*', f.body)
+    if not m:
+        return f
+    zopen = f.body.rfind('zip_eq(', 0, m.end()) + len('zip_eq')
+    zclose = match_brace(f.body, zopen)
+    err = f.body[m.end():zclose].strip().rstrip(',').strip()
+    m2 = re.match(r'\s*\?\s*\.enumerate\(\)\s*\{', f.body[zclose + 1:])
+    if not m2:
+        raise ExtractError(f'{f.qual}: zip_eq(..) not followed by ?.enumerate()')
+    i, p_, q_, r_, a, b = m.groups()
+    new = f'if {a}.len() != {b}.len() {{ return Err({err}); }} for {i} in 0..{a}.len() {{ let ({p_}, {q_}) = &{a}[{i}]; let {r_} = &{b}[{i}];'
+    f.body = f.body[:m.start()] + new + f.body[zclose + 1 + m2.end():]
+    f.rewrites.append(('R5', '`for (i, ((p, q), r)) in zip_eq(A.iter(), B.iter(), ERR)?.enumerate()` -> length check returning ERR + index loop', ''))
     return f
 
 
